@@ -344,6 +344,7 @@ func compareTwins(res *fw.Result, A, B *twinObs, tpls map[[2]int][]tplSpec, witn
 			if tainted || policy != "urns" {
 				// while the URNs are (or were) visible the flows may add a URN that one twin already has
 				res.Count("skipped.diverged_after_taint", 1)
+				tainted = true
 				break
 			}
 			// a URN added by the flow was already present in one twin only (identity collision): set semantics, not redaction
